@@ -245,6 +245,7 @@ def cases(shard, tier):
 def check_offsets(case, R):
     desc = case["desc"]
     t = T.build(desc)
+    T.spoil_accessors(t)
     one = {"kind": "offsets", "desc": desc}
 
     class Rx:
